@@ -1,0 +1,27 @@
+//go:build verif
+
+package stats
+
+import "time"
+
+// This file is only compiled with the "verif" build tag.  It adds accessors
+// used by the external deterministic-simulation harness and changes nothing
+// in the shipped build.
+
+// VerifFlush runs one iteration of the body of [StatsCtx.periodicFlush].
+func (s *StatsCtx) VerifFlush() (cont bool, sleepFor time.Duration) {
+	return s.flush()
+}
+
+// VerifInitWeb registers the HTTP handlers without starting the flush loop.
+func (s *StatsCtx) VerifInitWeb() {
+	s.initWeb()
+}
+
+// VerifCrash releases the database file the way a killed process would: the
+// handle is closed and nothing that only lives in memory is written.
+func (s *StatsCtx) VerifCrash() {
+	if db := s.db.Swap(nil); db != nil {
+		_ = db.Close()
+	}
+}
